@@ -6,6 +6,7 @@ from __future__ import annotations
 HOSTILE = {
     "sci-float-without-dot": ["1e3", "1E3", "+1e3", "1e+3", "1e-3", "-2E5", "12e03"],
     "float-like": ["1.e3", ".5", "1.", "-.5", "1.5", "0.0", "1_000.5", "+1.0"],
+    "float-lookalike-without-digit": ["._", ".__", "._e+1", "1._", "._1"],
     "int-like": ["1", "0", "-1", "+1", "-0", "007", "1_000", "123456789012345678901234567890"],
     "radix-int": ["0x1F", "0o7", "010", "0b11", "0X1f"],
     "sexagesimal": ["1:30", "190:20:30.15", "1:2:3", "-1:30"],
@@ -32,7 +33,7 @@ HOSTILE = {
 }
 
 KEY_SAFE_CLASSES = [
-    "sci-float-without-dot", "float-like", "int-like", "radix-int", "sexagesimal", "inf-nan", "bool-word", "null-word", "date",
+    "sci-float-without-dot", "float-like", "float-lookalike-without-digit", "int-like", "radix-int", "sexagesimal", "inf-nan", "bool-word", "null-word", "date",
     "yaml-indicator", "quote", "blank", "unicode", "long", "percent-env",
 ]
 
